@@ -28,7 +28,7 @@ m = {
     "setup_cmd": "./setup.sh",
     "hooks": {"guard": "verif", "enable": "go build -tags verif (the harness module replaces github.com/google/jsonschema-go by /repo)",
               "baseline_off_cmd": "cd /repo && GOFLAGS=-mod=mod GOPROXY=off GOSUMDB=off go test -vet=off -count=1 ./...",
-              "source_commits": [], "add_only": True},
+              "source_commits": ["03db6c79c715471e3a7901eb1c0f5a33725f234f"], "add_only": True},
     "engines": [{"name": "coq-model+correspondence", "path": "coq/, ocaml/, harness/, check",
                  "serves_properties": [c["property_id"] for c in checks],
                  "kind_free_text": "Coq 8.16.1 development (model, specifications, theorems) + extracted OCaml model runner + Go harness that generates cases and runs the package; ./check orchestrates"}],
